@@ -167,7 +167,10 @@ def make_data(n, dims=1, grid=5, kind="generic", seed=0, outlier_prob=0.0, het=F
         else:
             v = -3.0 * rs.rand(dims, grid)
         op = outlier_prob
-        if het and outlier_prob > 0:
+        if het == "zeros" and outlier_prob > 0:
+            # some data points (clusters) carry outlier probability exactly 0 next to others with a positive one
+            op = [0.0, outlier_prob, 0.0, 0.05, 0.5, 0.0][i % 6]
+        elif het and outlier_prob > 0:
             op = [outlier_prob, 0.05, 0.5, 1e-3, 0.3, 0.11][i % 6]
         if op == 0:
             lo, lon = 0, 0.0
